@@ -27,6 +27,16 @@ def make_copy(repo, dst):
 
 def apply(dst, edits):
     for e in edits:
+        if e[0] == 'revert':
+            # reverse-apply a fix commit of the analysed repository: the pre-fix code is a realistic mutant
+            repo = os.environ.get('BLOCH_REPO', '/repo')
+            d = subprocess.run(['git', '-C', repo, 'show', '--format=', e[1], '--', 'src'], capture_output=True, text=True)
+            if d.returncode != 0 or not d.stdout.strip():
+                return 'commit %s not found' % e[1]
+            r = subprocess.run(['patch', '-R', '-p1', '-s', '-d', dst], input=d.stdout, capture_output=True, text=True)
+            if r.returncode != 0:
+                return 'reverse patch of %s does not apply: %s' % (e[1], (r.stdout + r.stderr)[-200:])
+            continue
         rel, old, new = e[0], e[1], e[2]
         cnt = e[3] if len(e) > 3 else 1
         p = os.path.join(dst, rel)
@@ -52,26 +62,36 @@ def syntax_ok(dst, rels):
     return None
 
 
-def run_battery(pid, only=None, repo=None, verbose=True):
+def run_battery(pid, only=None, repo=None, verbose=True, jobs=4):
     repo = repo or os.environ.get('BLOCH_REPO', '/repo')
     spec = importlib.util.spec_from_file_location('m_' + pid, os.path.join(HERE, 'mutants', pid + '.py'))
     mod = importlib.util.module_from_spec(spec)
     spec.loader.exec_module(mod)
+    from concurrent.futures import ThreadPoolExecutor
+    todo = [m for m in mod.MUTANTS if not (only and only not in m['name'])]
+    with ThreadPoolExecutor(max_workers=jobs) as ex:
+        parts = list(ex.map(lambda m: _one(pid, m, repo), todo))
+    results = [r for p in parts for r in p]
+    if verbose:
+        for n, st, d in results:
+            print('%-12s %-45s %s' % (st, n, d[:160]))
+    return results
+
+
+def _one(pid, m, repo):
     results = []
-    for m in mod.MUTANTS:
-        if only and only not in m['name']:
-            continue
+    if True:
         tmp = tempfile.mkdtemp(prefix='blochsa-mut-')
         try:
             make_copy(repo, tmp)
             err = apply(tmp, m['edits'])
             if err:
                 results.append((m['name'], 'skipped', err))
-                continue
-            se = syntax_ok(tmp, sorted({e[0] for e in m['edits']}))
+                return results
+            se = syntax_ok(tmp, sorted({e[0] for e in m['edits'] if e[0] != 'revert'}))
             if se:
                 results.append((m['name'], 'skipped', 'mutant does not compile: ' + se[-300:]))
-                continue
+                return results
             env = dict(os.environ, BLOCH_REPO=tmp, BLOCHSA_EVIDENCE_DIR=os.path.join(tmp, 'ev'))
             r = subprocess.run([os.path.join(VERIF, 'check'), pid, '--tier', 'quick'], capture_output=True, text=True, env=env)
             out = r.stdout
@@ -84,9 +104,6 @@ def run_battery(pid, only=None, repo=None, verbose=True):
                 results.append((m['name'], 'silent' if ok else 'FALSE-ALARM', 'rc=%d %s' % (r.returncode, _viol(out))))
         finally:
             shutil.rmtree(tmp, ignore_errors=True)
-    if verbose:
-        for n, st, d in results:
-            print('%-12s %-45s %s' % (st, n, d[:160]))
     return results
 
 
